@@ -47,6 +47,7 @@ RULE = (
 ASSUMPTIONS = [
     "the tree is a tree: a value is inserted at one place at a time (fresh object, or a subtree detached earlier by delete/replace)",
     "two ModulesCollections exist; a subtree detached from one may be re-inserted into the other (moving a module between collections is a deletion on one collection and an insertion on another, both through the API the property names)",
+    "the registry clause is not asserted for an alias whose target lives in the other collection: `aliases` is keyed by path and paths are unique only within one collection",
     "the key's last part equals the value's name (otherwise obj.path cannot lead back to the object); the collection holds modules only, classes hold no modules, functions/attributes hold nothing",
     "mutation paths go through modules/classes only: setting or deleting *through* an alias or a function is not generated; lookups through alias paths (the read side) are checked after every step",
     "alias registry clause: for an alias whose target is an alias, `target.aliases` is the registry of the chain's final target; it is evaluated when every link is already resolved (links followed by identity, nothing is resolved by the check, rings by path are skipped exactly as Alias.final_target rejects them) and while no later step mutated the tree or re-targeted an alias since the outer alias was attached / re-targeted (Griffe registers an outer alias once, at that moment; see findings/C16.md 5)",
